@@ -141,6 +141,44 @@ Definition copy_root_path (c : ctx) (f : fs) (root p : bytes) (follow : bool) : 
     | inl pp => inl (join2 pp fl)
     end.
 
+(* ---- the reference: what a process chroot-ed into root gets ---- *)
+Fixpoint name_of_ino (ents : list (bytes * N)) (i : N) : option bytes :=
+  match ents with
+  | [] => None
+  | (n, j) :: r => if N.eqb i j then Some n else name_of_ino r i
+  end.
+(* names leading from directory [stop] down to directory [i] (parent pointers) *)
+Fixpoint path_up (fuel : nat) (f : fs) (stop i : N) (acc : list bytes) : option (list bytes) :=
+  if N.eqb i stop then Some acc
+  else match fuel with
+       | O => None
+       | S k =>
+         match dir_of f i with
+         | Some (par, _) =>
+           match dir_of f par with
+           | Some (_, pents) =>
+             match name_of_ino pents i with
+             | Some n => path_up k f stop par (n :: acc)
+             | None => None
+             end
+           | None => None
+           end
+         | None => None
+         end
+       end.
+(* chroot(root); chdir(p); getcwd() *)
+Definition chroot_cwd (f : fs) (rootino : N) (p : bytes) : bytes + errno :=
+  match resolve_ino {| c_root := rootino; c_cwd := rootino |} f p true with
+  | inr e => inr e
+  | inl i =>
+    if is_dir f i then
+      match path_up 64 f rootino i [] with
+      | Some cs => inl (sep :: joinc cs)
+      | None => inr EINVAL
+      end
+    else inr ENOTDIR
+  end.
+
 (* ---- vocabulary of the theorems ---- *)
 (* the absolute clean path with components cs: "/" ++ c1 ++ "/" ++ ... ++ cn *)
 Definition render (cs : list bytes) : bytes := sep :: joinc cs.
